@@ -155,17 +155,22 @@ theorem parseLine_joined (delim d j : Nat) (keep : Bool) (r : Rec) (h : WellForm
   have td : trimQ (decimal r.freq) = decimal r.freq :=
     trimQ_of_noquote (fun c hc => (isDigit_not_sep (dd c hc)).2.1)
   unfold parseLine
-  simp only [t1, t2, tp, td]
+  simp only [t1, t2]
   have hsk : cliSylSkip = 2 := rfl
-  have hff : cliFreqField = 1 := rfl
-  simp only [hsk, hff, List.getElem?_cons_zero, List.getElem?_cons_succ, List.drop_succ_cons, List.drop_zero,
-    parseU32_decimal hf, parseSyls_spell r.syls hsyl]
+  simp only [hsk, List.drop_succ_cons, List.drop_zero, parseSyls_spell r.syls hsyl, tp]
+  have hfreq : parseFreq keep r.phrase
+      (r.phrase :: decimal r.freq :: tokens (· == d) (joinWith [j] (r.syls.map spell)))
+      = .ok (zeroFreq keep r).freq := by
+    unfold parseFreq zeroFreq
+    by_cases hw : (r.phrase.length == cliWordLen && !keep) = true
+    · simp [hw]
+    · have hff : cliFreqField = 1 := rfl
+      simp [hw, hff, td, parseU32_decimal hf]
+  simp only [hfreq]
   unfold zeroFreq
   by_cases hw : (r.phrase.length == cliWordLen && !keep) = true
-  · have hw' : r.phrase.length = cliWordLen ∧ keep = false := by simpa using hw
-    simp [hw, hw', tp]
-  · have hw' : ¬ (r.phrase.length = cliWordLen ∧ keep = false) := by simpa using hw
-    simp [hw, hw', tp, td, parseU32_decimal hf]
+  · simp [hw]
+  · simp [hw]
 
 /-- `parse_line(' ', dump line)` -/
 theorem parse_dump_ssv (keep : Bool) (r : Rec) (h : WellFormedRecord r) :
